@@ -39,7 +39,20 @@ func authentic(w *warm, base hist.TxSpec, mutant []byte) bool {
 		return false
 	}
 	if base.Kind == "OLVM" {
-		return olvmAuthentic(w, st)
+		// EVM-style signature over the reconstructed legacy transaction; in addition the decoded payload must
+		// be the one that was signed for — every payload field, including those the signature scheme leaves
+		// out (type, access list): a payload changed after signing is not the signer's transaction
+		orig := &action.SignedTx{}
+		if json.Unmarshal(base.Bytes, orig) != nil {
+			return false
+		}
+		pa, pb := &olvmact.Transaction{}, &olvmact.Transaction{}
+		if json.Unmarshal(orig.Data, pa) != nil || json.Unmarshal(st.Data, pb) != nil {
+			return false
+		}
+		ja, _ := json.Marshal(pa)
+		jb, _ := json.Marshal(pb)
+		return olvmAuthentic(w, st) && bytes.Equal(ja, jb)
 	}
 	rb := st.RawTx.RawBytes()
 	if len(st.Signatures) != len(base.Signers) {
@@ -288,6 +301,28 @@ func mutants(w *warm, base hist.TxSpec, rng *rand.Rand) []mutant {
 				return true
 			})
 		}
+	}
+	if base.Kind == "OLVM" {
+		olvmPayload := func(name string, f func(p *olvmact.Transaction)) {
+			add(name, func(st *action.SignedTx) bool {
+				p := &olvmact.Transaction{}
+				if json.Unmarshal(st.Data, p) != nil {
+					return false
+				}
+				f(p)
+				d, err := json.Marshal(p)
+				if err != nil {
+					return false
+				}
+				st.Data = d
+				return true
+			})
+		}
+		olvmPayload("olvm-payload-type", func(p *olvmact.Transaction) { p.TxType = 1 })
+		olvmPayload("olvm-payload-access-list-added", func(p *olvmact.Transaction) {
+			p.AccessList = &ethtypes.AccessList{{Address: ethcmn.Address{1}, StorageKeys: []ethcmn.Hash{{2}}}}
+		})
+		olvmPayload("olvm-payload-empty-access-list", func(p *olvmact.Transaction) { p.AccessList = &ethtypes.AccessList{} })
 	}
 	add("key-algorithm-btcec", func(st *action.SignedTx) bool {
 		// btcec public key of the attacker with an arbitrary signature
